@@ -1,5 +1,5 @@
 -------------------------------- MODULE Tags --------------------------------
-(* TaggedSeries.parse / parse_carbon / validateTagAndValue / sanitize_name_as_tag_value *)
+(* TaggedSeries.parse / parse_carbon / parse_openmetrics / validateTagAndValue / sanitize_name_as_tag_value *)
 (* / format (lib/carbon/util.py) over sequences of character codes (C18).               *)
 (* Mode "model": TLC enumerates every string up to MaxLen over Alphabet and checks       *)
 (* idempotence, and every permutation of the tag list of every valid series built from   *)
@@ -10,7 +10,7 @@ EXTENDS Integers, Sequences, FiniteSets, SequencesExt, Json, IOUtils, TLC, TLCEx
 CONSTANTS Mode, MaxLen, Alphabet, Names, Keys, Vals, MaxTags
 
 Semi == 59  Eq == 61  Tilde == 126  Bang == 33  Caret == 94  LBr == 123  RBr == 125
-Quote == 34  Bsl == 92  Comma == 44
+Quote == 34  Bsl == 92  Comma == 44  Colon == 58
 NameKey == <<110, 97, 109, 101>>                       \* "name"
 
 VARIABLES s, tid
@@ -60,14 +60,60 @@ ParseCarbon(x) ==
      ELSE IF LStrip(metric, Tilde) = <<>> THEN Fail
      ELSE Format(LStrip(metric, Tilde), Dedup([i \in 1..Len(tsegs) |-> pairOf(tsegs[i])], {}))
 
+\* index of the first occurrence of c in x (0 if none)
+First(x, c) == IF c \in ToSetS(x) THEN CHOOSE i \in 1..Len(x) : x[i] = c /\ \A j \in 1..(i - 1) : x[j] # c ELSE 0
+
+(* parse_openmetrics: the loop over  re.match(r'([^=]+)="((?:[\\]["\\]|[^"\\])+)"(:?,|$)', rawtags).
+   The tag is everything up to the first '=', which must be followed by '"'; the value is a run of
+   ordinary characters and of backslash escapes of '"' and '\', at least one, up to the first
+   unescaped '"'; then the end of the text, ',' or ':,'.  OMValue returns [ok, v (unescaped), q
+   (index of the closing quote)]. *)
+RECURSIVE OMValue(_, _, _)
+OMValue(raw, i, acc) ==
+  IF i > Len(raw) THEN [ok |-> FALSE, v |-> <<>>, q |-> 0]
+  ELSE IF raw[i] = Quote THEN [ok |-> acc # <<>>, v |-> acc, q |-> i]
+  ELSE IF raw[i] = Bsl
+         THEN (IF i + 1 <= Len(raw) /\ raw[i + 1] \in {Quote, Bsl}
+                 THEN OMValue(raw, i + 2, Append(acc, raw[i + 1]))
+                 ELSE [ok |-> FALSE, v |-> <<>>, q |-> 0])
+  ELSE OMValue(raw, i + 1, Append(acc, raw[i]))
+RECURSIVE OMTags(_, _)
+OMTags(raw, acc) ==
+  IF raw = <<>> THEN [ok |-> TRUE, ps |-> acc]
+  ELSE LET e == First(raw, Eq) IN
+    IF e <= 1 \/ e + 1 > Len(raw) \/ raw[e + 1] # Quote THEN [ok |-> FALSE, ps |-> <<>>]
+    ELSE LET r == OMValue(raw, e + 2, <<>>)
+             q == r.q
+             nxt == IF ~r.ok THEN 0
+                    ELSE IF q = Len(raw) THEN q
+                    ELSE IF raw[q + 1] = Comma THEN q + 1
+                    ELSE IF raw[q + 1] = Colon /\ q + 2 <= Len(raw) /\ raw[q + 2] = Comma THEN q + 2
+                    ELSE 0
+         IN IF nxt = 0 \/ ~ValidTV(SubSeq(raw, 1, e - 1), r.v) THEN [ok |-> FALSE, ps |-> <<>>]
+            ELSE OMTags(SubSeq(raw, nxt + 1, Len(raw)), Append(acc, <<SubSeq(raw, 1, e - 1), r.v>>))
+ParseOM(x) ==
+  LET body == SubSeq(x, 1, Len(x) - 1)
+      b == First(body, LBr)
+      metric == SubSeq(body, 1, b - 1)
+      r == OMTags(SubSeq(body, b + 1, Len(body)), <<>>)
+  IN IF metric = <<>> \/ ~r.ok \/ LStrip(metric, Tilde) = <<>> THEN Fail
+     ELSE Format(LStrip(metric, Tilde), Dedup(r.ps, {}))
+
+\* TaggedSeries.parse: OpenMetrics syntax is recognised by the closing '"}' after a '{' - unless a ';'
+\* precedes that '{': the text is then a carbon name whose tag value merely looks like OpenMetrics
+IsOM(x) == /\ Len(x) >= 2 /\ x[Len(x) - 1] = Quote /\ x[Len(x)] = RBr /\ LBr \in ToSetS(x)
+           /\ Semi \notin ToSetS(SubSeq(x, 1, First(x, LBr) - 1))
+Parse(x) == IF IsOM(x) THEN ParseOM(x) ELSE ParseCarbon(x)
+
 \* what is stored / relayed: the normalised name, or the name as received when it is rejected
-Stored(x) == IF ParseCarbon(x) = Fail THEN x ELSE ParseCarbon(x)
-IsOM(x) == Len(x) >= 2 /\ x[Len(x) - 1] = Quote /\ x[Len(x)] = RBr /\ LBr \in ToSetS(x)
+Stored(x) == IF Parse(x) = Fail THEN x ELSE Parse(x)
 
 \* renderings of a series
 RECURSIVE Join(_)
 Join(ss) == IF ss = <<>> THEN <<>> ELSE Head(ss) \o Join(Tail(ss))
 RenderCarbon(nm, ps) == nm \o Join([i \in 1..Len(ps) |-> <<Semi>> \o ps[i][1] \o <<Eq>> \o ps[i][2]])
+Esc(v) == Flat([i \in 1..Len(v) |-> IF v[i] \in {Quote, Bsl} THEN <<Bsl, v[i]>> ELSE <<v[i]>>])
+RenderOM(nm, ps) == nm \o <<LBr>> \o Join([i \in 1..Len(ps) |-> (IF i > 1 THEN <<Comma>> ELSE <<>>) \o ps[i][1] \o <<Eq, Quote>> \o Esc(ps[i][2]) \o <<Quote>>]) \o <<RBr>>
 Canon(nm, ps) == Format(LStrip(nm, Tilde), {ps[i] : i \in 1..Len(ps)})
 ValidSeries(nm, ps) == /\ nm # <<>> /\ LStrip(nm, Tilde) # <<>> /\ Semi \notin ToSetS(nm)
                        /\ \A i \in 1..Len(ps) : ValidTV(ps[i][1], ps[i][2])
@@ -84,15 +130,20 @@ Init == CASE Mode = "strings" -> s \in Strings /\ tid = 0
 Next == UNCHANGED vars
 Spec == Init /\ [][Next]_vars
 
-\* C18 on the specification
-Idempotent == Mode = "strings" => (ParseCarbon(s) # Fail => ParseCarbon(ParseCarbon(s)) = ParseCarbon(s))
+\* C18 on the specification.  Idempotence is stated on what is stored: a text that is at the same
+\* time a canonical carbon name and an OpenMetrics rendering that breaks a tag rule is rejected, and
+\* stored as received - which is unchanged.
+Idempotent == Mode = "strings" => Stored(Stored(s)) = Stored(s)
 Canonical == Mode = "series" =>
-   (ValidSeries(s[1], s[2]) => ParseCarbon(RenderCarbon(s[1], s[2])) = Canon(s[1], s[2]))
+   (ValidSeries(s[1], s[2]) =>
+      /\ ~IsOM(RenderCarbon(s[1], s[2])) => Parse(RenderCarbon(s[1], s[2])) = Canon(s[1], s[2])
+      /\ (s[2] # <<>> /\ LBr \notin ToSetS(s[1])) => Parse(RenderOM(s[1], s[2])) = Canon(s[1], s[2])
+      /\ Stored(Canon(s[1], s[2])) = Canon(s[1], s[2]))
 
 CaseFlags ==
   LET c == Cases[tid] IN
   IF c.kind = "carbon"
-    THEN (IF c.parsed # (IF ParseCarbon(c.str) = Fail THEN <<>> ELSE ParseCarbon(c.str)) \/ (c.ok = 1) # (ParseCarbon(c.str) # Fail)
+    THEN (IF c.parsed # (IF Parse(c.str) = Fail THEN <<>> ELSE Parse(c.str)) \/ (c.ok = 1) # (Parse(c.str) # Fail)
             THEN {"parse"} ELSE {})
          \cup (IF c.stored # Stored(c.str) THEN {"stored-name"} ELSE {})
          \cup (IF c.relayed # Stored(c.str) THEN {"relayed-name"} ELSE {})
